@@ -26,20 +26,50 @@ theorem satTy_one (e : Name) : satTy [e] = "buf" := by
 theorem satTy_two (a b : Name) (l : List Name) : satTy (a :: b :: l) = "or" := by
   unfold satTy; simp
 
-theorem gateFn_satTy (ep : List Name) (hep : ep ≠ []) (f : Name → Bool) :
+theorem satTy_nil : satTy [] = "0" := rfl
+
+/-- `sat` computes the disjunction of the comparators; with no compared endpoint it is the constant `"0"` -/
+theorem gateFn_satTy' (ep : List Name) (f : Name → Bool) :
     gateFn (satTy ep) (ep.map f) = some (ep.any f) := by
-  match ep, hep with
-  | [e], _ => rw [satTy_one]; simp [gateFn_buf1]
-  | a :: b :: l, _ =>
+  match ep with
+  | [] => rw [satTy_nil]; rfl
+  | [e] => rw [satTy_one]; simp [gateFn_buf1]
+  | a :: b :: l =>
     rw [satTy_two]
     unfold gateFn
     simp [List.any_map]
 
-theorem satTy_cases (ep : List Name) : satTy ep = "or" ∨ satTy ep = "buf" := by
+theorem gateFn_satTy (ep : List Name) (hep : ep ≠ []) (f : Name → Bool) :
+    gateFn (satTy ep) (ep.map f) = some (ep.any f) := gateFn_satTy' ep f
+
+theorem satTy_cases (ep : List Name) : satTy ep = "or" ∨ satTy ep = "buf" ∨ satTy ep = "0" := by
   unfold satTy
-  by_cases h : ep.length > 1
-  · rw [if_pos h]; exact Or.inl rfl
-  · rw [if_neg h]; exact Or.inr rfl
+  by_cases h0 : ep.isEmpty = true
+  · rw [if_pos h0]; exact Or.inr (Or.inr rfl)
+  · rw [if_neg h0]
+    by_cases h : ep.length > 1
+    · rw [if_pos h]; exact Or.inl rfl
+    · rw [if_neg h]; exact Or.inr (Or.inl rfl)
+
+theorem eq_nil_of_satTy_zero {ep : List Name} (h : satTy ep = "0") : ep = [] := by
+  cases ep with
+  | nil => rfl
+  | cons a l =>
+    cases l with
+    | nil => rw [satTy_one] at h; exact absurd h (by decide)
+    | cons b l => rw [satTy_two] at h; exact absurd h (by decide)
+
+theorem satTy_cases_ne (ep : List Name) (hne : ep ≠ []) : satTy ep = "or" ∨ satTy ep = "buf" := by
+  rcases satTy_cases ep with h | h | h
+  · exact Or.inl h
+  · exact Or.inr h
+  · exfalso
+    cases ep with
+    | nil => exact hne rfl
+    | cons a l =>
+      cases l with
+      | nil => rw [satTy_one] at h; exact absurd h (by decide)
+      | cons b l => rw [satTy_two] at h; exact absurd h (by decide)
 
 /-! ### node membership -/
 
@@ -153,14 +183,14 @@ theorem MView.sem_dif (V : MView c0 c1 sp ep m) (hep : ep.Nodup) {e : Name} (he 
   rw [V.fanin_dif hep he]
   exact gateFn_xor2 _ _
 
-theorem MView.sem_sat (V : MView c0 c1 sp ep m) (hep : ep.Nodup) (hne : ep ≠ [])
+theorem MView.sem_sat (V : MView c0 c1 sp ep m) (hep : ep.Nodup)
     (v : Val) (hv : Consistent m v) :
     v "sat" = true ↔ ∃ e ∈ ep, v (pref "c0" e) ≠ v (pref "c1" e) := by
   have hs : v "sat" = ep.any (fun e => v (dif e)) := by
     apply hv _ V.mem_sat (satTy ep) rfl
     show gateFn (satTy ep) ((m.fanin "sat").map v) = _
     rw [V.fanin_sat, List.map_map]
-    exact gateFn_satTy ep hne _
+    exact gateFn_satTy' ep _
   rw [hs, List.any_eq_true]
   constructor
   · rintro ⟨e, he, h⟩
@@ -188,7 +218,7 @@ theorem mem_inputs_iff (c : Circuit) (x : Name) :
     exact ⟨p, ⟨hp, by rw [ht]; simp⟩, e⟩
 
 theorem satTy_ne_input (ep : List Name) : satTy ep ≠ "input" := by
-  rcases satTy_cases ep with h | h <;> rw [h] <;> decide
+  rcases satTy_cases ep with h | h | h <;> rw [h] <;> decide
 
 theorem MView.inputs (V : MView c0 c1 sp ep m) (x : Name) : x ∈ m.inputs ↔ x ∈ sp := by
   rw [mem_inputs_iff]
